@@ -34,7 +34,7 @@ PROPS = {
     'C16': dict(facts=[], keys=['C16'], tkeys=['T:phase4-valign', 'T:phase4-packright', 'T:output'], suites=[('c16', 2500, 60000)], partial=[]),
     'C17': dict(facts=['Numbers'], keys=['C17'], tkeys=['T:phase4-valign', 'T:phase4-packright', 'T:phase4-sinkcoloring', 'T:assignY', 'T:phase5', 'T:output'], suites=[('scale', 2000, 50000), ('e2e', 800, 10000)], partial=[]),
     'C18': dict(facts=['Shared'], keys=['C18own', 'C18same', 'C18nonvacuous'], tkeys=['T:monitor'],
-                suites=[('history', 1500, 30000), ('monitor', 1000, 20000)], partial=[]),
+                suites=[('history', 1500, 30000), ('monitor', 1000, 20000), ('e2e', 1000, 30000), ('c18bk', 1500, 30000)], partial=[]),
     'C19': dict(facts=[], keys=['C19'], tkeys=[], suites=[], partial=[]),
     'C20': dict(facts=[], keys=['C20'], tkeys=[], suites=[], partial=[]),
 }
